@@ -23,6 +23,7 @@ CONSTANTS H,          \* descriptor handles of the model universe
           Removable,  \* handles the drivers may delete (leaves whose real parent is outside the universe are not)
           Tok,        \* content tokens
           BeginKinds, \* transaction kinds the drivers may open
+          KeepH,      \* handles whose entity the application may keep across transactions
           TrackH,     \* the handle whose life-cycle is tracked by trk (test purposes), "none" = no tracking
           MaxTx, MaxOps
 
@@ -32,12 +33,13 @@ VARIABLES m,     \* the MDIB: [D, S, C, mver, lastD, lastS, lastC]
           hist,  \* emitted behaviour (hidden by VIEW in exhaustive runs)
           trk,   \* life-cycle word of TrackH: one letter per finished transaction that touched it
                  \* (A add, D delete, U update, S state update; lower case = aborted)
+          keptv, \* DescriptorVersion the kept entity had when it was obtained (how stale it is when it is used)
           kept   \* handle of the entity object the application obtained between two transactions and still holds
                  \* ("none": none); it is written / refreshed / changed LATER, when the MDIB has moved on
 
-vars == <<m, tx, ntx, hist, trk, kept>>
-view == <<m, tx, ntx, kept>>
-trkview == <<m, tx, ntx, trk, kept>>
+vars == <<m, tx, ntx, hist, trk, kept, keptv>>
+view == <<m, tx, ntx, kept, keptv>>
+trkview == <<m, tx, ntx, trk, kept, keptv>>
 
 Ext == "ext"          \* parent outside the model universe (e.g. the MDS)
 NoneP == "none"
@@ -45,7 +47,7 @@ NoneP == "none"
 NoD == [present |-> FALSE, parent |-> NoneP, ver |-> 0, tok |-> 0]
 NoS == [present |-> FALSE, sver |-> 0, dver |-> 0, tok |-> 0]
 NoC == [present |-> FALSE, d |-> NoneP, sver |-> 0, dver |-> 0, tok |-> 0, assoc |-> "No", bind |-> -1, unbind |-> -1]
-NoTx == [kind |-> "none", d |-> <<>>, s |-> <<>>, c |-> <<>>, nops |-> 0, rej |-> 0]
+NoTx == [kind |-> "none", d |-> <<>>, s |-> <<>>, c |-> <<>>, nops |-> 0, rej |-> 0, kb |-> -1]
 
 Single(h) == Kind[h] # "ctx"     \* descriptor kinds with exactly one (single) state
 
@@ -57,7 +59,7 @@ InitM == [D |-> [h \in H |-> IF InitParent[h] = NoneP THEN NoD
           mver |-> 0,
           lastD |-> [h \in H |-> -1], lastS |-> [h \in H |-> -1], lastC |-> [c \in CH |-> -1]]
 
-Init == m = InitM /\ tx = NoTx /\ ntx = 0 /\ hist = <<>> /\ trk = <<>> /\ kept = NoneP
+Init == m = InitM /\ tx = NoTx /\ ntx = 0 /\ hist = <<>> /\ trk = <<>> /\ kept = NoneP /\ keptv = 0
 
 \* ------------------------------------------------------------------ helpers
 Idx(seq, key, v) == IF \E i \in 1..Len(seq) : seq[i][key] = v
@@ -76,6 +78,7 @@ Log(rec) == /\ hist' = Append(hist, rec)
                       THEN Append(trk, IF rec.act = "Commit" THEN TrkLetter ELSE Lower(TrkLetter))
                       ELSE trk
             /\ kept' = IF rec.act = "KeepEntity" THEN rec.h ELSE kept
+            /\ keptv' = IF rec.act = "KeepEntity" THEN m.D[rec.h].ver ELSE keptv
 Op(t) == [t EXCEPT !.nops = @ + 1]
 NextVer(last) == IF last >= 0 THEN last + 1 ELSE 0
 StateKind(h) == Kind[h]
@@ -96,9 +99,12 @@ Cap2(n) == IF n > 2 THEN 2 ELSE n
 NCtx(h) == Cardinality({c \in CH : m.C[c].present /\ m.C[c].d = h})
 Fan(h) == IF ~m.D[h].present THEN 0 ELSE IF Kind[h] = "ctx" THEN Cap2(NCtx(h)) ELSE Cap2(Cardinality(Children(m.D, h)))
 SameD(t, d) == Cap2(Cardinality({i \in 1..Len(t.c) : t.c[i].d = d}))
+\* how many descriptor versions the kept entity is behind when it is written
+Behind(h) == Cap2(m.D[h].ver - keptv)
 SitOf(t, how) ==
   {"T:" \o t.kind \o ":" \o how \o ":" \o (IF t.rej = 1 THEN "rej" ELSE "-")
         \o ":" \o (IF t.d = <<>> /\ t.s = <<>> /\ t.c = <<>> THEN "empty" ELSE "-")}
+  \cup (IF t.kb >= 0 THEN {"K:" \o t.kind \o ":behind" \o ToString(t.kb) \o ":" \o how} ELSE {})
   \cup {"D:" \o t.d[i].op \o ":" \o Kind[t.d[i].h] \o ":" \o ToString(Fan(t.d[i].h)) \o ":" \o how : i \in 1..Len(t.d)}
   \cup {"S:" \o t.s[i].op \o ":" \o t.s[i].via \o ":" \o Kind[t.s[i].h] \o ":" \o t.kind \o ":" \o how : i \in 1..Len(t.s)}
   \cup {"C:" \o t.c[i].op \o ":" \o t.c[i].assoc \o ":" \o ToString(SameD(t, t.c[i].d)) \o ":" \o t.kind \o ":" \o how
@@ -148,7 +154,8 @@ SWriteEntityAs(h, t, name) ==
   /\ IF StateKind(h) = tx.kind
      THEN /\ LET item == [h |-> h, op |-> "upd", via |-> "ent", sver |-> m.S[h].sver + 1, dver |-> m.D[h].ver, tok |-> t]
                  i == Idx(tx.s, "h", h)
-             IN tx' = Op([tx EXCEPT !.s = IF i = 0 THEN Append(@, item) ELSE [@ EXCEPT ![i] = item]])
+             IN tx' = Op([tx EXCEPT !.s = IF i = 0 THEN Append(@, item) ELSE [@ EXCEPT ![i] = item],
+                                    !.kb = IF name = "WriteKeptEntity" THEN Behind(h) ELSE @])
           /\ UNCHANGED <<m, ntx>>
           /\ Log([act |-> name, h |-> h, t |-> t, res |-> "ok"])
      ELSE Rejected([act |-> name, h |-> h, t |-> t])
@@ -297,7 +304,8 @@ DWriteEntityAs(h, t, name) ==
                 !.d = Append(@, [h |-> h, op |-> "upd", parent |-> m.D[h].parent, ver |-> m.D[h].ver + 1, tok |-> t]),
                 !.s = LET item == [h |-> h, op |-> "upd", via |-> "ent", sver |-> m.S[h].sver + 1, dver |-> m.D[h].ver + 1, tok |-> t]
                           i == Idx(tx.s, "h", h)
-                      IN IF i = 0 THEN Append(@, item) ELSE [@ EXCEPT ![i] = item]])
+                      IN IF i = 0 THEN Append(@, item) ELSE [@ EXCEPT ![i] = item],
+                !.kb = IF name = "WriteKeptEntity" THEN Behind(h) ELSE @])
           /\ UNCHANGED <<m, ntx>>
           /\ Log([act |-> name, h |-> h, t |-> t, res |-> "ok"])
      ELSE Rejected([act |-> name, h |-> h, t |-> t])
@@ -446,7 +454,7 @@ KeepEntity(h) == /\ tx.kind = "none" /\ kept = NoneP /\ ntx < MaxTx
 Next == \/ \E src \in {"getter", "entity", "result"}, t \in Tok : MutateCopy(src, t)
         \* the kept entity is refreshed with update() and then changed: "kept_new" changes only what update() added
         \/ \E src \in {"kept_upd", "kept_new"}, t \in Tok : kept # NoneP /\ m.D[kept].present /\ MutateCopy(src, t)
-        \/ \E h \in H : KeepEntity(h)
+        \/ \E h \in KeepH : KeepEntity(h)
         \/ \E h \in H, t \in Tok : SWriteKept(h, t) \/ DWriteKept(h, t)
         \/ \E d \in H, t \in Tok, nc \in CH \cup {NoneP}, dc \in CH \cup {NoneP} : DWriteEntityCtx(d, t, nc, dc)
         \/ \E k \in BeginKinds : Begin(k)
